@@ -181,8 +181,34 @@ pub fn run(args: &Args) -> i32 {
         check_chunk(&b, loc, true);
     });
 
+    // padding contents: every combination of padding byte values (several bytes non-zero at once), CRC re-derived
+    const PADV: [u8; 16] = [0, 1, 2, 3, 7, 0x0F, 0x10, 0x55, 0x7F, 0x80, 0x81, 0xAA, 0xF0, 0xFE, 0xFF, 0x40];
+    let n3: u64 = if thorough { 256 } else { 16 };
+    rep.run("padding-product", 2 * (256 + 65536 + n3 * n3 * n3), 30, true, "payload lengths {3,7} (1 padding byte: all 256 values), {2,6} (2 bytes: all 65536 pairs), {1,5} (3 bytes: all 2^24 triples thorough, a 16-value alphabet cubed quick), payload CRC re-derived", |idx, loc| {
+        let per = 256 + 65536 + n3 * n3 * n3;
+        let (which, k) = (idx / per, idx % per);
+        let (pad, vals): (usize, [u8; 3]) = if k < 256 {
+            (1, [k as u8, 0, 0])
+        } else if k < 256 + 65536 {
+            let j = k - 256;
+            (2, [(j & 0xFF) as u8, (j >> 8) as u8, 0])
+        } else {
+            let j = k - 256 - 65536;
+            let d = unrank(j, &[n3, n3, n3]);
+            let f = |x: u64| if n3 == 256 { x as u8 } else { PADV[x as usize] };
+            (3, [f(d[0]), f(d[1]), f(d[2])])
+        };
+        let len = 4 - pad + 4 * which as usize;
+        let mut b = mk_chunk(len, 1, 1, 0, payload_bytes(len, 9));
+        for i in 0..pad {
+            b[20 + len + i] = vals[i];
+        }
+        chunk_fix_crcs(&mut b);
+        check_chunk(&b, loc, true);
+    });
+
     // header fields
-    rep.run("chip-flags-product", 256 * 256 * 2, 30, true, "chip id 0..=255 x flags 0..=255 x {CRC re-derived, CRC stale}", |idx, loc| {
+    rep.run("chip-flags-product",256 * 256 * 2, 30, true, "chip id 0..=255 x flags 0..=255 x {CRC re-derived, CRC stale}", |idx, loc| {
         let d = unrank(idx, &[256, 256, 2]);
         let mut b = mk_chunk(3, 0, 0, 2, payload_bytes(5, 1));
         b[10] = d[0] as u8;
